@@ -10,6 +10,7 @@ theorems take the measured fact as the hypothesis `FloatsOK`.
 Placements at negative offsets are outside the property's quantifier.
 -/
 import AvoVerif.Model.Data
+import AvoVerif.Model.Float
 import AvoVerif.Lemmas.NumText
 import AvoVerif.Lemmas.Quote
 namespace Avo.Data
@@ -492,5 +493,35 @@ theorem nonmonotone_rejected_witness :
     (run {} [.place 8 (.int U32 1), .place 0 (.int U32 2)]).2 = [true, true] ∧
     assemble (fun _ _ => none)
       ((run {} [.place 8 (.int U32 1), .place 0 (.int U32 2)]).1.texts (fun _ => false)) = none := by decide
+
+/-! ### Floats: the measured hypothesis fails at two float32 values (finding F11)
+
+`Float.asmFloat` is the executable model of the assembler's conversion
+(nearest binary64 of the decimal, then nearest binary32 of that).  The text
+below is what the implementation prints for the float32 with bit pattern
+0x15ae43fd (measured on every run by the harness: `accept-f32 15ae43fd …`). -/
+
+def f11Text : List Char := "0.00000000000000000000000007038531".toList
+
+/-- The decimal is the correctly rounded name of 0x15ae43fd in single
+precision, but the assembler's two roundings land on the next float32:
+`ConstOK` does not hold for this constant. -/
+theorem f32_text_fails_at_F11 :
+    Float.directF32 f11Text = some 0x15ae43fd ∧
+    Float.asmFloat f11Text 4 = some 0x15ae43fe ∧
+    Float.asmFloat ('-' :: f11Text) 4 = some 0x95ae43fe ∧
+    ¬ ConstOK Float.asmFloat (.float 4 0x15ae43fd f11Text) := by
+  refine ⟨by decide +kernel, by decide +kernel, by decide +kernel, ?_⟩
+  intro h
+  have h2 : Float.asmFloat f11Text 4 = some 0x15ae43fe := by decide +kernel
+  simp only [ConstOK] at h
+  rw [h2] at h
+  exact absurd h.2 (by decide)
+
+/-- Non-vacuity of the float side condition: ordinary values satisfy it. -/
+example : ConstOK Float.asmFloat (.float 4 0x3dcccccd "0.1".toList) := by
+  refine ⟨Or.inl rfl, by decide +kernel⟩
+example : ConstOK Float.asmFloat (.float 8 0x8000000000000000 "-0.0".toList) := by
+  refine ⟨Or.inr rfl, by decide +kernel⟩
 
 end Avo.Data
